@@ -2826,3 +2826,35 @@ Proof.
     apply roadm_forward; [exact Hty|now apply roadm_params_ok_n].
   - now apply roadm_backward.
 Qed.
+
+(* ------------------------------------------------------------------ mode-level aliases *)
+Lemma mapM_In : forall {A B} (f : A -> res B) l l' x, mapM f l = Ok l' -> In x l -> exists y, f x = Ok y /\ In y l'.
+Proof.
+  intros A B f l; induction l as [|a t IH]; intros l' x H Hin; [contradiction|].
+  rewrite mapM_cons in H. destruct (f a) as [b|] eqn:Ea; [|discriminate]. cbn [bind] in H.
+  destruct (mapM f t) as [t'|] eqn:Et; [|discriminate]. cbn [bind] in H. injection H as <-.
+  destruct Hin as [->|Hin]; [exists b; split; [exact Ea|now left]|].
+  destruct (IH t' x eq_refl Hin) as (y & Hy & Hin'). exists y. split; [exact Hy|now right].
+Qed.
+
+(* every declared mode stays (without its alias list) and every alias names a mode equal to it except for `format` *)
+Theorem mode_alias_spec : forall ms l, expand_modes ms = Ok l ->
+  forall m names, In m ms -> mode_alias_names m = Ok names ->
+    In (jdel "other_name" m) l /\
+    forall n, In n names ->
+      let m' := jset "format" (JStr n) (jdel "other_name" m) in
+      In m' l /\ jget "format" m' = Some (JStr n) /\ jget "other_name" m' = None /\
+      (forall k, String.eqb k "format" = false -> String.eqb k "other_name" = false -> jget k m' = jget k m).
+Proof.
+  intros ms l H m names Hm Hn. unfold expand_modes in H.
+  destruct (mapM mode_aliases ms) as [al|] eqn:Ea; [|discriminate]. cbn [bind] in H. injection H as <-.
+  split; [apply in_or_app; left; now apply in_map|].
+  intros n Hin m'. subst m'. repeat split.
+  - apply in_or_app. right. destruct (mapM_In _ _ _ m Ea Hm) as (am & Ham & Hal).
+    apply in_concat. exists am. split; [exact Hal|].
+    unfold mode_aliases in Ham. rewrite Hn in Ham. cbn [bind] in Ham. injection Ham as <-.
+    apply in_map_iff. exists n. split; [reflexivity|exact Hin].
+  - apply jget_jset_same.
+  - rewrite jget_jset_other by reflexivity. apply jget_jdel_same.
+  - intros k H1 H2. rewrite jget_jset_other by exact H1. now apply jget_jdel_other.
+Qed.
